@@ -4,8 +4,11 @@ import (
 	"bytes"
 	"context"
 	"fmt"
+	"runtime"
 	"runtime/debug"
 	"strings"
+	"sync"
+	"sync/atomic"
 	"time"
 
 	"github.com/ava-labs/avalanchego/ids"
@@ -21,12 +24,12 @@ func init() {
 	register(&simk.Prop{
 		ID:    "C18",
 		Level: "fault_enumeration",
-		Rule: "a seeded chain of 2..5 blocks (0..3 morpheusvm transfers each) is produced by a reference node that is never faulted (complete vm.VM + snow.VM + merkledb + real pebble on an in-memory file system); a victim node then accepts the chain faster than it processes it (the async accepter only advances when the simulator hands it scheduling tokens) and is crashed at a point (a, j): after the engine's a-th Accept returned and after the accepter advanced exactly j scheduling steps through the accept pipeline (dequeue, execution-results write, state commit, subscriber notification). One crash point is taken per run, drawn from the tape: a in 1..N, j in 0..(5a+1); the thorough tier's runs cover the (a, j) grid of each chain many times over. The crashed incarnation's tasks are frozen, its durable files are copied and a fresh process incarnation is started on them; " +
-			"oracle: restart succeeds; last accepted = block a; state root and last execution results equal the reference node's at that height; accepted notifications before and after the restart cover 1..a with increasing heights in each incarnation; the node then accepts the rest of the chain and ends at the reference root. non-trivial = >=2 accepted blocks were queued unprocessed at the crash or the crash hit the middle of the accept pipeline; distinct = (chain, crash point) hashes",
+		Rule: "a seeded chain of 2..5 blocks (0..3 morpheusvm transfers each) is produced by a reference node that is never faulted (complete vm.VM + snow.VM + merkledb + real pebble on an in-memory file system); a victim node then accepts the chain faster than it processes it: its async accepter only advances when the simulator hands it scheduling tokens. Blocks 1..a-1 are accepted by the engine and the accepter gets j1 steps; block a is then parsed, verified and accepted by an engine thread of its own while engine thread and accepter together get j2 scheduling steps (every yield point of the executor, state views, validity window, accept pipeline, plus the durable writes of the block index and of the execution results, which are scheduling points too); in half of the runs the index write of block a never returns while the accepter keeps running. The node is then crashed: its tasks are frozen wherever they are (inside Verify, inside Accept before or after the index write, between results write, state commit and notification), its files are copied and a fresh incarnation is started on them; one crash point per run, drawn from the tape; " +
+			"oracle against the never-crashed node: restart succeeds; last accepted = the last block whose Accept returned, or block a if its Accept was in flight; state root and last execution results equal the reference node's at that height; accepted notifications before and after the restart cover every accepted height, never stepping back within an incarnation; the node then accepts the rest of the chain and ends at the reference root. non-trivial = >=2 accepted blocks were queued unprocessed at the crash or the crash hit the middle of the accept pipeline or of an engine call; distinct = (chain, crash point) hashes",
 		Exec:        c18,
 		Real:        []string{"vm.VM (Initialize, extractLatestOutputBlock, AcceptBlock, Submit, BuildBlock, VerifyBlock)", "snow.VM + StatefulBlock (Accept queue, async accepter, reprocessFromOutputToInput)", "chain.Processor/Builder/Accepter", "chainindex on pebble", "merkledb on pebble", "indexer and other default options", "examples/morpheusvm"},
 		Stub:        []string{"consensus engine (drives Parse/Verify/Accept in order)", "file system (pebble vfs.MemFS, copied at the crash)", "clock", "network (no peers)", "goroutine scheduling"},
-		Assumptions: []string{"crash points are the simulator's scheduling points: between engine calls and at the yield points inside the accept pipeline; every store write is synchronous, so the files at such a point are exactly the durable state"},
+		Assumptions: []string{"crash points are the simulator's scheduling points (yield points and the index/results writes); writes below merkledb are not crash points of their own, because merkledb holds its commit locks across them; every store write is synchronous, so the files at a crash point are exactly the durable state; torn writes inside one pebble batch are not modelled"},
 	})
 }
 
@@ -47,8 +50,9 @@ func c18(r *simk.Run) *simk.Violation {
 	fsm := NewFSManager()
 	s.FSFn = fsm.Lookup
 	var viol *simk.Violation
+	var over atomic.Bool // set at teardown: what a thawed crashed incarnation still does is not judged
 	fail := func(class, f string, a ...any) {
-		if viol == nil {
+		if viol == nil && !over.Load() {
 			viol = &simk.Violation{Class: "C18/" + class, Detail: fmt.Sprintf(f, a...)}
 		}
 	}
@@ -59,10 +63,15 @@ func c18(r *simk.Run) *simk.Violation {
 	s.Run(r.T, func() {
 		ctx := context.Background()
 		var live []*Node // incarnations that must be shut down when the scenario ends
+		var waitEngine func()
 		defer func() {
 			// frozen tasks of the crashed incarnation unwind first; then every incarnation (also the
 			// crashed one, whose stores and tickers are still open) is shut down on the Go scheduler
-			s.KillFrozen()
+			over.Store(true)
+			s.ThawAll()
+			if waitEngine != nil {
+				waitEngine() // the crashed incarnation's engine call finishes before its VM is shut down
+			}
 			s.FreeRun(func() {
 				for _, n := range live {
 					if n != nil && n.Snow != nil {
@@ -95,6 +104,16 @@ func c18(r *simk.Run) *simk.Violation {
 		live = append(live, ref)
 		if err != nil {
 			fail("harness", "reference node: %v", err)
+			return
+		}
+		genesisID, err := ref.Snow.LastAccepted(ctx)
+		if err != nil {
+			fail("harness", "%v", err)
+			return
+		}
+		genesisRoot, err := ref.Snow.LastAcceptedBlock(ctx).Output.View.GetMerkleRoot(ctx)
+		if err != nil {
+			fail("harness", "%v", err)
 			return
 		}
 		n := 2 + c.Intn(4)
@@ -165,14 +184,16 @@ func c18(r *simk.Run) *simk.Violation {
 		}
 
 		// ---- victim
-		a := 1 + c.Intn(n)    // engine accepts before the crash
-		j := c.Intn(10*a + 2) // accepter scheduling steps before the crash
+		a := 1 + c.Intn(n)    // the engine's a-th Accept is in flight (or has just returned) at the crash
+		j1 := c.Intn(10*a + 2) // accepter scheduling steps granted while blocks 1..a-1 are accepted
+		j2 := c.Intn(120)      // scheduling steps of the whole node (engine thread and accepter, incl. every
+		//                        durable write) granted while block a is parsed, verified and accepted
+		// half of the runs: the engine's block-index write of block a does not return (slow disk) while
+		// the accepter keeps running; the node dies with that write still in flight
+		holdIndexWrite := c.Bool(0.5)
 		stopBeforeLastNotify := false
 		if r.Avoid {
-			// stay clear of the recorded findings (restart with the block index ahead of the state):
-			// the accepter commits every queued block; the crash lands before or after the last
-			// block's subscriber notification
-			j = 1 << 20
+			j1, j2 = 1<<20, 1<<20
 			stopBeforeLastNotify = c.Bool(0.5)
 		}
 		sample = map[string]any{"chain_len": n, "txs_per_block": func() []int {
@@ -181,7 +202,20 @@ func c18(r *simk.Run) *simk.Violation {
 				o = append(o, b.txs)
 			}
 			return o
-		}(), "crash_after_engine_accepts": a, "accepted_cache": acceptedCache}
+		}(), "crash_during_or_after_accept_of_block": a, "accepted_cache": acceptedCache, "index_write_of_last_block_never_returns": holdIndexWrite}
+		// the durable writes of the block index and of the execution results are scheduling points (I/O
+		// blocks the writer while other threads run) and so crash points. Writes below merkledb are not:
+		// merkledb holds its commit locks across them, and a task parked with a lock held would block
+		// the others on a mutex the simulator cannot see.
+		diskYield := false
+		s.FaultFn = func(site, _ string) error {
+			if diskYield && strings.HasPrefix(site, "pebble.") {
+				if store := ioWithoutStateLocks(); store != "" {
+					s.Yield("disk."+store+"."+site, 0)
+				}
+			}
+			return nil
+		}
 		s.SetGate(0, gatePrefixes...) // the accepter does not move unless given tokens
 		v1, err := NewNode(ctx, r.T, fsm, "victim", genesisBytes, cfg, nullSender{})
 		live = append(live, v1)
@@ -189,54 +223,102 @@ func c18(r *simk.Run) *simk.Violation {
 			fail("harness", "victim start: %v", err)
 			return
 		}
-		for h := 1; h <= a; h++ {
+		engineStep := func(h int) bool {
 			blk, err := v1.Snow.ParseBlock(ctx, blocks[h-1].bytes)
 			if err != nil {
 				fail("parse-fails", "height %d: %v", h, err)
-				return
+				return false
 			}
 			if err := blk.Verify(ctx); err != nil {
 				fail("verify-fails", "victim cannot verify reference block %d: %v", h, err)
-				return
+				return false
 			}
 			if err := blk.Accept(ctx); err != nil {
 				fail("accept-fails", "victim Accept(%d): %v", h, err)
+				return false
+			}
+			return true
+		}
+		for h := 1; h < a; h++ {
+			if !engineStep(h) {
 				return
 			}
 		}
-		// let the accepter advance exactly j scheduling steps (or until it has nothing to do)
 		s.Yield("c18.settle", 0) // quiescence: the accepter is parked (or waits for the queue) before it is inspected
 		steps := 0
-		for ; steps < j; steps++ {
-			site, key, ok := s.GatedPos()
-			if !ok || (stopBeforeLastNotify && site == "snow.accept.beforeNotify" && key == uint64(a)) {
+		for ; steps < j1; steps++ {
+			if _, _, ok := s.GatedPos(); !ok {
 				break
 			}
 			s.SetGate(1, gatePrefixes...)
 			s.WaitGate()
 		}
-		s.SetGate(0, gatePrefixes...)
-		sample["accepter_steps_before_crash"] = steps
+		// block a: the engine thread is a task of its own, so that the crash can land inside its calls
+		diskYield = true
+		acceptReturned := false
+		var engWg sync.WaitGroup
+		engWg.Add(1)
+		waitEngine = engWg.Wait
+		s.SetGate(0, append([]string{"go:c18.engine"}, gatePrefixes...)...)
+		s.Go("c18.engine", 0, func() {
+			defer engWg.Done()
+			if engineStep(a) {
+				acceptReturned = true
+			}
+		})
+		s.Yield("c18.settle", 1)
+		if holdIndexWrite {
+			s.HoldPrefix = "disk.index."
+			j2 = 400
+		}
+		steps2 := 0
+		for ; steps2 < j2; steps2++ {
+			site, key, ok := s.GatedPos()
+			if !ok || (stopBeforeLastNotify && acceptReturned && site == "snow.accept.beforeNotify" && key == uint64(a)) {
+				break
+			}
+			s.SetGate(1, append([]string{"go:c18.engine"}, gatePrefixes...)...)
+			s.WaitGate()
+		}
+		s.SetGate(0, append([]string{"go:c18.engine"}, gatePrefixes...)...)
+		s.HoldPrefix = ""
+		diskYield = false
+		if viol != nil {
+			return
+		}
+		sample["accepter_steps_before_last_block"] = steps
+		sample["node_steps_during_last_block"] = steps2
+		sample["last_accept_returned"] = acceptReturned
 		processed := 0
 		for _, h := range v1.AcceptedHeights() {
 			if h >= 1 {
 				processed++
 			}
 		}
-		queued := a - processed
+		done := a - 1
+		if acceptReturned {
+			done = a
+		}
+		queued := done - processed
 		if queued >= 2 {
 			s.Probe("crash_with_two_or_more_queued_accepts")
 			nontrivial = true
 		}
 		frozen := s.FreezeParked("gate.")
 		for _, site := range frozen {
-			if site != "snow.accepter.dequeue" {
+			if site != "snow.accepter.dequeue" && !strings.HasPrefix(site, "workers.") {
 				nontrivial = true
 				s.Probe("crash_inside_accept_pipeline")
 			}
+			if strings.HasPrefix(site, "disk.") {
+				s.Probe("crash_before_a_durable_write")
+			}
+		}
+		if !acceptReturned {
+			s.Probe("crash_inside_engine_call")
 		}
 		s.FaultFired("crash")
-		r.Fingerprint("%v|%d|%d|%d|%v", sample["txs_per_block"], a, steps, acceptedCache, frozen)
+		r.Fingerprint("%v|%d|%d|%d|%d|%v", sample["txs_per_block"], a, steps, steps2, acceptedCache, frozen)
 		sample["processed_before_crash"] = processed
 		sample["frozen_tasks"] = frozen
 		// ---- durable state -> new incarnation
@@ -269,28 +351,48 @@ func c18(r *simk.Run) *simk.Violation {
 		if err != nil {
 			cls := "restart-fails"
 			if strings.Contains(err.Error(), "cannot extract latest output block from invalid state") {
-				cls = "restart-fails-with-index-two-or-more-ahead-of-state"
+				cls = "restart-fails-index-and-state-inconsistent"
 			}
 			fail(cls, "restart after a crash with %d accepted blocks of which %d were processed (accepter frozen at %v) failed: %v", a, processed, frozen, err)
 			return
 		}
 		la, err := v2.Snow.LastAccepted(ctx)
-		if err != nil || la != blocks[a-1].id {
-			fail("last-accepted-differs", "after restart LastAccepted = (%s, %v), the last block whose acceptance was recorded is height %d (%s)", la, err, a, blocks[a-1].id)
+		if err != nil {
+			fail("last-accepted-differs", "LastAccepted after restart: %v", err)
 			return
 		}
+		// the engine's last Accept either returned (block a is accepted) or was cut short (a-1, or a if
+		// its index update was already durable)
+		L := -1
+		if la == genesisID {
+			L = 0
+		}
+		for h := 1; h <= n; h++ {
+			if blocks[h-1].id == la {
+				L = h
+			}
+		}
+		if L != done && L != a {
+			fail("last-accepted-differs", "after restart LastAccepted = %s (height %d of the reference chain), but %d Accept calls had returned and Accept(%d) was in flight=%v", la, L, done, a, !acceptReturned)
+			return
+		}
+		sample["last_accepted_after_restart"] = L
 		lab := v2.Snow.LastAcceptedBlock(ctx)
 		if lab.Output == nil {
 			fail("no-output-after-restart", "last accepted block has no execution output after restart")
 			return
 		}
+		wantRoot, wantResults := genesisRoot, []byte(nil)
+		if L >= 1 {
+			wantRoot, wantResults = blocks[L-1].root, blocks[L-1].results
+		}
 		root, err := lab.Output.View.GetMerkleRoot(ctx)
-		if err != nil || root != blocks[a-1].root {
-			fail("state-root-differs", "after restart the state root at height %d is %s (%v), the never-crashed node has %s", a, root, err, blocks[a-1].root)
+		if err != nil || root != wantRoot {
+			fail("state-root-differs", "after restart the state root at height %d is %s (%v), the never-crashed node has %s", L, root, err, wantRoot)
 			return
 		}
-		if !bytes.Equal(lab.Output.ExecutionResults.Marshal(), blocks[a-1].results) {
-			fail("results-differ", "after restart the last execution results at height %d differ from the never-crashed node's", a)
+		if L >= 1 && !bytes.Equal(lab.Output.ExecutionResults.Marshal(), wantResults) {
+			fail("results-differ", "after restart the last execution results at height %d differ from the never-crashed node's", L)
 			return
 		}
 		// notifications: every accepted block at least once across the restart, in height order per incarnation
@@ -304,14 +406,14 @@ func c18(r *simk.Run) *simk.Violation {
 				}
 			}
 		}
-		for h := 1; h <= a; h++ {
+		for h := 1; h <= L; h++ {
 			if !seen[uint64(h)] {
 				fail("accepted-block-never-notified", "accepted block %d was delivered to the subscriber neither before the crash (%v) nor after the restart (%v)", h, v1.AcceptedHeights(), v2.AcceptedHeights())
 				return
 			}
 		}
 		// liveness: the rest of the chain
-		for h := a + 1; h <= n; h++ {
+		for h := L + 1; h <= n; h++ {
 			blk, err := v2.Snow.ParseBlock(ctx, blocks[h-1].bytes)
 			if err != nil {
 				fail("parse-fails", "after restart, height %d: %v", h, err)
@@ -362,4 +464,28 @@ func firstLines(s string, n int) string {
 		l = l[:n]
 	}
 	return strings.Join(l, "\n")
+}
+
+// ioWithoutStateLocks reports whether the current goroutine is writing to the block index or to the
+// execution-results store (and not from inside merkledb), and names the store.
+func ioWithoutStateLocks() string {
+	var pcs [48]uintptr
+	n := runtime.Callers(2, pcs[:])
+	frames := runtime.CallersFrames(pcs[:n])
+	store := ""
+	for {
+		f, more := frames.Next()
+		switch {
+		case strings.Contains(f.Function, "/x/merkledb."):
+			return ""
+		case strings.Contains(f.Function, "hypersdk/chainindex."):
+			store = "index"
+		case strings.HasSuffix(f.Function, "vm.(*VM).AcceptBlock"):
+			store = "results"
+		}
+		if !more {
+			break
+		}
+	}
+	return store
 }
